@@ -13,6 +13,7 @@ pub mod queries;
 pub mod mutate;
 pub mod sched;
 pub mod sched_kinds;
+pub mod regn;
 
 use brood::{
     entity,
